@@ -378,4 +378,83 @@ theorem GInv_run : ∀ (ops : List Op) (s : State), WF s → GInv s → GInv (ru
 theorem GInv_reach (ops : List Op) : GInv (run State.init ops).1 :=
   GInv_run ops State.init WF_init GInv_init
 
+/-! ### `GenesisState.Validate` on an exported store -/
+
+theorem allDistinct_iff : ∀ (l : List Nat), allDistinct l = true ↔ l.Nodup
+  | [] => by simp [allDistinct]
+  | x :: xs => by
+    simp only [allDistinct, Bool.and_eq_true, Bool.not_eq_eq_eq_not, Bool.not_true,
+      List.nodup_cons, allDistinct_iff xs]
+    constructor
+    · rintro ⟨h1, h2⟩; exact ⟨by simpa using h1, h2⟩
+    · rintro ⟨h1, h2⟩; exact ⟨by simpa using h1, h2⟩
+
+theorem validateBasic_ok_actions {m : CreateMsg} (h : m.validateBasic = .ok ()) :
+    ∀ a ∈ m.actions, a.validateBasic = true := by
+  unfold CreateMsg.validateBasic at h
+  split at h; · cases h
+  split at h; · cases h
+  split at h; · cases h
+  exact fun a ha => (validateActions_ok _ _ h a ha).2
+
+theorem genesisValidateBasic_of_validateBasic {a : Action} (h : a.validateBasic = true) :
+    a.genesisValidateBasic = true := by
+  cases a <;> simp_all [Action.validateBasic, Action.genesisValidateBasic]
+
+theorem mem_getAllTriggers {s : State} (hw : WF s) (t : Trigger) :
+    t ∈ getAllTriggers s ↔ s.triggers t.id = some t := by
+  simp only [getAllTriggers, List.mem_filterMap, List.mem_range]
+  constructor
+  · rintro ⟨i, _, h⟩; rw [(hw.trig i t h).1]; exact h
+  · intro h; exact ⟨t.id, (hw.trig _ t h).2.2, h⟩
+
+theorem nodup_getAllTriggers {s : State} (hw : WF s) : ((getAllTriggers s).map (·.id)).Nodup :=
+  (nodup_keys_filterMap (·.id) s.triggers (fun i t h => (hw.trig i t h).1) _ List.nodup_range).1
+
+theorem nodup_getAllGasLimits (s : State) : ((getAllGasLimits s).map (·.1)).Nodup := by
+  refine (nodup_keys_filterMap (fun (p : Nat × Nat) => p.1) _ (fun i a h => ?_) _ List.nodup_range).1
+  cases hg : s.gasLimits i with
+  | none => simp [hg] at h
+  | some b => simp only [hg, Option.map_some, Option.some.injEq] at h; rw [← h]
+
+theorem mem_gasKeys {s : State} (hw : WF s) (k : Nat) :
+    k ∈ (getAllGasLimits s).map (·.1) ↔ (s.gasLimits k).isSome = true := by
+  simp only [getAllGasLimits, List.mem_map, List.mem_filterMap, List.mem_range]
+  constructor
+  · rintro ⟨a, ⟨i, _, h⟩, e⟩
+    cases hg : s.gasLimits i with
+    | none => simp [hg] at h
+    | some b =>
+      simp only [hg, Option.map_some, Option.some.injEq] at h
+      rw [← e, ← h, hg]; rfl
+  · intro h
+    obtain ⟨g, hg⟩ := Option.isSome_iff_exists.1 h
+    exact ⟨(k, g), ⟨k, gasLimit_id_lt hw hg, by simp [hg]⟩, rfl⟩
+
+/-- the ids of the exported waiting and queued triggers: pairwise distinct, and exactly the ids that
+have a gas limit -/
+theorem exported_ids {s : State} (hw : WF s) :
+    ((getAllTriggers s).map (·.id) ++ qIds s).Nodup ∧
+    ((getAllGasLimits s).map (·.1)).Perm ((getAllTriggers s).map (·.id) ++ qIds s) := by
+  have hmemT : ∀ k, k ∈ (getAllTriggers s).map (·.id) ↔ (s.triggers k).isSome = true := by
+    intro k
+    constructor
+    · intro h
+      obtain ⟨t, ht, e⟩ := List.mem_map.1 h
+      rw [← e, (mem_getAllTriggers hw t).1 ht]; rfl
+    · intro h
+      obtain ⟨t, ht⟩ := Option.isSome_iff_exists.1 h
+      have hid := (hw.trig k t ht).1
+      exact List.mem_map.2 ⟨t, (mem_getAllTriggers hw t).2 (by rw [hid]; exact ht), hid⟩
+  have hnd : ((getAllTriggers s).map (·.id) ++ qIds s).Nodup := by
+    refine List.nodup_append.2 ⟨nodup_getAllTriggers hw, hw.qNodup, ?_⟩
+    intro a ha b hb e
+    subst e
+    obtain ⟨x, hx, e⟩ := List.mem_map.1 hb
+    have h1 := (hw.q x hx).1
+    have h2 := (hmemT a).1 ha
+    rw [← e, h1] at h2; cases h2
+  refine ⟨hnd, (List.perm_ext_iff_of_nodup (nodup_getAllGasLimits s) hnd).2 (fun k => ?_)⟩
+  rw [mem_gasKeys hw, hw.gas k, List.mem_append, hmemT]
+
 end PvProofs.Lemmas.Trig
